@@ -716,6 +716,7 @@ func (g *localfsRunner) localfsRunChild(world, dir string, ops []localfsOp) ([]l
 	began := make([]bool, len(ops))
 	ms := make([]int64, len(ops))
 	hung := -1
+	var waited, lastCPU time.Duration
 	var t0 time.Time
 	timer := time.NewTimer(g.timeout + 5*time.Second) // start-up allowance
 loop:
@@ -741,8 +742,19 @@ loop:
 				default:
 				}
 			}
+			waited, lastCPU = 0, localfsGroupCPU(cmd.Process.Pid)
 			timer.Reset(g.timeout)
 		case <-timer.C:
+			// A call that is still running: a hang only if the process kept the CPU busy for most
+			// of the wait (compareFile's loop spins) or the hard cap is reached; a child starved by
+			// other load on the machine gets more time.
+			waited += g.timeout
+			cpu := localfsGroupCPU(cmd.Process.Pid)
+			if cpu-lastCPU < g.timeout*6/10 && waited < 10*g.timeout {
+				lastCPU = cpu
+				timer.Reset(g.timeout)
+				continue
+			}
 			for i := range ops {
 				if began[i] && !ended[i] {
 					hung = i
@@ -774,6 +786,40 @@ loop:
 		}
 	}
 	return obs, nil
+}
+
+// localfsGroupCPU is the CPU time (user+system) consumed so far by the traced child: the processes
+// of process group pgid other than strace itself.
+func localfsGroupCPU(pgid int) time.Duration {
+	ents, _ := os.ReadDir("/proc")
+	var ticks int64
+	for _, e := range ents {
+		pid, err := strconv.Atoi(e.Name())
+		if err != nil || pid == pgid {
+			continue
+		}
+		b, err := os.ReadFile("/proc/" + e.Name() + "/stat")
+		if err != nil {
+			continue
+		}
+		t := string(b)
+		rp := strings.LastIndexByte(t, ')')
+		if rp < 0 {
+			continue
+		}
+		f := strings.Fields(t[rp+1:])
+		// after "(comm)": state ppid pgrp session tty tpgid flags minflt cminflt majflt cmajflt utime stime
+		if len(f) < 13 {
+			continue
+		}
+		if g, _ := strconv.Atoi(f[2]); g != pgid {
+			continue
+		}
+		u, _ := strconv.ParseInt(f[11], 10, 64)
+		st, _ := strconv.ParseInt(f[12], 10, 64)
+		ticks += u + st
+	}
+	return time.Duration(ticks) * 10 * time.Millisecond
 }
 
 // localfsClear removes the immutable flag from everything below p (the engine runs as root, so
